@@ -29,6 +29,20 @@ def cases(run: Run):
             "ns": ns, "nt": nt, "decision": decision, "steps": rng.randint(2, 3), "displace": [rng.random() < 0.4 for _ in range(nt)],
             "slow": [rng.random() < 0.25 for _ in range(ns)], "narrow": rng.random() < 0.4, "seed": rng.randint(1, 10**6), "orders": rng.sample(range(1, 1000), run.n(3, 6)),
         })
+    out.extend(mixed_outcome_cases(rng))
+    return out
+
+
+def mixed_outcome_cases(rng):
+    """several sensors tasked to the same target in one step, one of them with a field of view too narrow for the estimate error: the job returns observations AND a miss"""
+    out = []
+    for decision in ("AllVisibleDecision", "MyopicNaiveGreedyDecision"):
+        ns = rng.randint(2, 4)
+        narrow_s = [False] * ns
+        narrow_s[rng.randrange(ns)] = True
+        # the truth is 2.5 deg from the estimate every sensor points at: the 1 deg cone misses it, the 90 deg cones see it
+        out.append({"ns": ns, "nt": 1, "decision": decision, "steps": 2, "displace": [True], "slow": [False] * ns, "narrow": False, "narrow_s": narrow_s,
+                    "seed": rng.randint(1, 10**6), "orders": [rng.randint(1, 999)]})
     return out
 
 
@@ -38,7 +52,8 @@ def build_case(c):
     sensors = []
     for k in range(c["ns"]):
         lat, lon = SITES[k]
-        fov = {"fov_shape": "conic", "cone_angle": 1.0} if c["narrow"] else None
+        narrow = c["narrow_s"][k] if "narrow_s" in c else c["narrow"]
+        fov = {"fov_shape": "conic", "cone_angle": 1.0} if narrow else {"fov_shape": "conic", "cone_angle": 90.0} if "narrow_s" in c else None
         # the all-visible policy is only accepted for advanced (phased-array) radars
         sensors.append(scen.radar_cfg(60001 + k, lat, lon, slew=(0.05 if c["slow"][k] else 5.0), fov=fov, adv=(c["decision"] == "AllVisibleDecision")))
     targets = []
